@@ -369,6 +369,7 @@ func runC04(p *Program, r *Report) {
 				}
 				e := NewEngine(p)
 				e.EvalInits = true
+				e.RunOnce = true // a lazily computed inverse is computed (who may write it and when is C11/C12.pure)
 				mk := func(w [3]*big.Rat) Val { return &Agg{Elems: []Val{formRat(w[0]), formRat(w[1]), formRat(w[2])}} }
 				outs, err := extract(p, e, adapt, []Val{mk(src.White), mk(dst.White)})
 				var A [3][3]*big.Rat
